@@ -121,9 +121,33 @@ func waitReason(gid uint64) string {
 	}
 }
 
-func mutexWaiting(gid uint64) bool {
-	r := waitReason(gid)
-	return strings.HasPrefix(r, "sync.") || strings.HasPrefix(r, "semacquire")
+// lockWaitReason: the wait reasons the runtime (Go >= 1.20; /repo's go.mod pins the toolchain) gives a
+// goroutine parked inside a sync.Mutex / sync.RWMutex operation.  NOT the bare "semacquire": that is
+// what a goroutine shows while it waits for one of the runtime's own semaphores (worldsema / gcsema in
+// gcStart), and the scheduler's runtime.Stack(all) takes exactly worldsema for its sample - a lock
+// holder whose allocation starts a GC cycle at that moment parks on it and was taken for blocked in
+// sc.mu.Lock.  Seen once (VERIF_SEED=2, case 0 - the first, slow, steps of the process, where the
+// 100us timeout does fire for a running thread): the HOLDER t0 labelled blocked(sc.mu.Lock) between
+// refto.insert and cache.linked, one false model/implementation mismatch on the unchanged tree; not
+// reproduced in 52 further runs (12 of them with GOGC=1), so the cause is the probable one, not a
+// proven one; the second sample in mutexWaiting guards against any other transient wait too (conc3).
+func lockWaitReason(r string) bool {
+	return strings.HasPrefix(r, "sync.Mutex.") || strings.HasPrefix(r, "sync.RWMutex.")
+}
+
+// mutexWaiting: goroutine gid is parked in a mutex operation (one sample; absorb re-examines its
+// verdicts on every step, so a stale one corrects itself there).
+func mutexWaiting(gid uint64) bool { return lockWaitReason(waitReason(gid)) }
+
+// mutexBlocked: the same in two samples with the processor yielded in between - the verdict of await,
+// which becomes a trace label: being blocked persists while every other goroutine of the group is
+// parked, anything transient does not.
+func mutexBlocked(gid uint64) bool {
+	if !mutexWaiting(gid) {
+		return false
+	}
+	runtime.Gosched()
+	return mutexWaiting(gid)
 }
 
 // Sched runs one group of threads.
@@ -176,7 +200,7 @@ func (s *Sched) await(t *thr) int {
 		case site := <-t.arrived:
 			return s.arrive(t, site)
 		case <-time.After(100 * time.Microsecond):
-			if mutexWaiting(t.gid) {
+			if mutexBlocked(t.gid) {
 				// it may have been woken between the check and now only by another
 				// thread's unlock, and every other thread is parked: it is blocked.
 				t.state = stBlocked
